@@ -471,9 +471,15 @@ func (p *parser) InstantiateGenericFunction(genericFunc *ast.FuncDecl, genericTy
 	// add the instantiation to prevent recursion
 	genericFunc.Generic.Instantiations[genericModule] = append(genericFunc.Generic.Instantiations[genericModule], &decl)
 
+	// errors in the body are returned to the caller, who reports them at the call site if this instantiation is needed;
+	// they do not make the declaring module (which may be an imported, finished module) faulty
+	declaringModuleFaulty := declParser.module.Ast.Faulty
+
 	declParser.advance() // skip the colon for blockStatement()
 	decl.Body = declParser.blockStatement(declParser.scope()).(*ast.BlockStmt)
 	declParser.ensureReturnStatementPresent(&decl, decl.Body)
+
+	declParser.module.Ast.Faulty = declaringModuleFaulty
 
 	if errorCollector.DidError() {
 		// remove the instantiation as we errored
